@@ -184,10 +184,10 @@ theorem subOK_of_genSub {P : PCtx} {f : Nat} {sd : SubDef} {r : Routine}
     (hr : genSub P.version P.fp false P.p sd (spillSlotsC P.fp sd) = .ok r)
     (hl : P.Pg.subs.lookup (subLabel f) = some (r.G, r.start))
     (hmem : sd ∈ P.p.subs)
-    (hok : subOkC P.fp P.p sd P.dyn = true) : SubOK P f sd := by
+    (hok : subOkC P.fp P.p sd P.dyn P.strict = true) : SubOK P f sd := by
   simp only [subOkC, Bool.and_eq_true, List.all_eq_true, decide_eq_true_eq, Bool.or_eq_true, Bool.not_eq_true',
     List.contains_eq_mem, decide_eq_false_iff_not, beq_iff_eq] at hok
-  obtain ⟨⟨⟨⟨⟨⟨⟨hwt, hpar⟩, hnd⟩, hloc⟩, hsnd⟩, hs1⟩, hs2⟩, hpl⟩ := hok
+  obtain ⟨⟨⟨⟨⟨⟨⟨⟨hwt, hpar⟩, hnd⟩, hloc⟩, hsnd⟩, hs1⟩, hs2⟩, hpl⟩, _⟩ := hok
   have hlook : ∃ G sf bs, P.Pg.subs.lookup (subLabel f) = some (G, sf) ∧ Blk G sf (prologue P.fp sd) (.next bs) ∧
       ShapeR G (subCfg P sd) (wrapBody sd) bs 0 none := by
     cases hfp : P.fp with
@@ -249,19 +249,19 @@ theorem subOK_of_genSub {P : PCtx} {f : Nat} {sd : SubDef} {r : Routine}
 
 /-- **Closing lemma for whole programs**: a successful `genProg` on a program of the fragment
     yields routine graphs with the properties the semantic half needs. -/
-theorem progOK_of_gen {version : Nat} {fp dyn : Bool} {p : Prog} {Pg : PProg} (cx : Ctx)
-    (hg : genProg version fp p = .ok Pg) (hf : inFragmentC fp p dyn = true) :
-    ProgOK ⟨cx, p, Pg, version, fp, dyn⟩ := by
+theorem progOK_of_gen {version : Nat} {fp dyn strict : Bool} {p : Prog} {Pg : PProg} (cx : Ctx)
+    (hg : genProg version fp p = .ok Pg) (hf : inFragmentC fp p dyn strict = true) :
+    ProgOK ⟨cx, p, Pg, version, fp, dyn, strict⟩ := by
   intro f sd hsd _
   have hsubs := genProg_subs hg
   obtain ⟨r, hr, hl⟩ := genSubs_lookup p.subs Pg.subs hsubs f sd hsd
   have hmem : sd ∈ p.subs := List.mem_of_find?_eq_some hsd
   simp only [inFragmentC, Bool.and_eq_true, List.all_eq_true] at hf
-  exact subOK_of_genSub (P := ⟨cx, p, Pg, version, fp, dyn⟩) hr hl hmem (hf.1.1.2 sd hmem)
+  exact subOK_of_genSub (P := ⟨cx, p, Pg, version, fp, dyn, strict⟩) hr hl hmem (hf.1.1.2 sd hmem)
 
 /-- `genProg` generates a graph for every declared routine -/
-theorem callPresent_of_gen {version : Nat} {fp dyn : Bool} {p : Prog} {Pg : PProg} (cx : Ctx)
-    (hg : genProg version fp p = .ok Pg) : CallPresent ⟨cx, p, Pg, version, fp, dyn⟩ := by
+theorem callPresent_of_gen {version : Nat} {fp dyn strict : Bool} {p : Prog} {Pg : PProg} (cx : Ctx)
+    (hg : genProg version fp p = .ok Pg) : CallPresent ⟨cx, p, Pg, version, fp, dyn, strict⟩ := by
   intro X cfg K cur hR f ce cb k hf _
   rw [hR.callees, callees_find] at hf
   cases hsd : findSub p f with
